@@ -86,3 +86,15 @@ def uplink_overlay(addr: int) -> int:
 def uplink(data: int, nbits: int, addr: int) -> int:
     """uplink frame: data (nbits-24 bits) + AP = parity XOR modified address"""
     return (data << 24) | (parity(data, nbits) ^ uplink_overlay(addr))
+
+
+PI_TAILS = ("000000", "FFFFFF", "5A5A5A")
+
+
+def anypi(rng, hx: str, p: float = 0.25) -> str:
+    """The field decoders do not (and need not) verify the parity of an extended squitter: with probability p the PI
+    field is replaced by a constant or random value, so that consecutive different frames may share their last 24 bits."""
+    if rng.random() >= p:
+        return hx
+    t = rng.choice(PI_TAILS + ("%06X" % rng.getrandbits(24),))
+    return hx[:-6] + t
